@@ -10,14 +10,19 @@ pub(crate) mod thread {
     //! `thread::spawn(closure)` stores the real closure; a harness later runs it ("the worker
     //! executes these queued commands now", "the sweeper performs one tick now").
     pub(crate) const MAX_STASH: usize = 8;
-    pub(crate) static mut STASH: [Option<Box<dyn FnOnce() + Send>>; MAX_STASH] = [None, None, None, None, None, None, None, None];
+    type Body = Option<Box<dyn FnOnce() + Send>>;
+    // one static per slot (not an array): the slot index is a constant in every harness, and CBMC then keeps the
+    // closure's vtable pointer constant, so that running slot n explores only the body that was stashed there
+    static mut S0: Body = None; static mut S1: Body = None; static mut S2: Body = None; static mut S3: Body = None;
+    static mut S4: Body = None; static mut S5: Body = None; static mut S6: Body = None; static mut S7: Body = None;
     pub(crate) static mut SPAWNED: usize = 0;
     pub(crate) struct JoinHandle;
     pub(crate) fn spawn<F>(f: F) -> JoinHandle where F: FnOnce() + Send + 'static {
         unsafe {
             let n = SPAWNED;
             assert!(n < MAX_STASH, "verif_rt: too many spawned threads");
-            STASH[n] = Some(Box::new(f));
+            let b: Body = Some(Box::new(f));
+            match n { 0 => S0 = b, 1 => S1 = b, 2 => S2 = b, 3 => S3 = b, 4 => S4 = b, 5 => S5 = b, 6 => S6 = b, _ => S7 = b }
             SPAWNED = n + 1;
         }
         JoinHandle
@@ -25,7 +30,8 @@ pub(crate) mod thread {
     /// run the body of the `n`-th spawned thread (at most once) as logical thread `tid`
     pub(crate) fn run(n: usize, tid: usize) {
         unsafe {
-            if let Some(f) = STASH[n].take() {
+            let body = match n { 0 => S0.take(), 1 => S1.take(), 2 => S2.take(), 3 => S3.take(), 4 => S4.take(), 5 => S5.take(), 6 => S6.take(), _ => S7.take() };
+            if let Some(f) = body {
                 let me = verif_sched::CUR;
                 verif_sched::CUR = tid;
                 f();
